@@ -35,8 +35,14 @@ MCCat ==
 MCPos == [r |-> [x \in Repos |-> IF x = "r1" THEN 2 ELSE 4],
           t |-> [x \in Tags |-> IF x = "t1" THEN 2 ELSE 4],
           c |-> [x \in Cids |-> CASE x = "b1" -> 2 [] x = "b2" -> 4 [] x = "img" -> 6 [] x = "sub" -> 8]]
-MCFaults == {NoFault, [k |-> 0, code |-> "DENIED"], [k |-> 1, code |-> "DENIED"], [k |-> 1, code |-> "NAME_UNKNOWN"]}
+MCFaults == {NoFault, [k |-> 1, code |-> "DENIED"], [k |-> 0, code |-> "NAME_UNKNOWN"]}
 NoFaults == {NoFault}
+
+\* the policy only matters to digest-addressed reads, the lister faults only to listings:
+\* both are chosen per call (a unifier is stateless, so this is the same as building one
+\* unifier per combination over the same members)
+PolsFor(o) == IF o.op \in DigestReads THEN Policies ELSE {"seq"}
+FaultsFor(o) == IF o.op \in Lists THEN [{0, 1} -> ListFaults] ELSE {[i \in {0, 1} |-> NoFault]}
 
 MCInit == Init /\ depth = 0
 
@@ -45,14 +51,14 @@ UnifierOpsView == ReadOpsSet \cup ContentWrites(MTs) \cup BadPushes \cup (IF Car
 NextView ==
   /\ UNCHANGED depth
   /\ \/ \E i \in {0, 1} : \E o \in DirectOps : Direct(i, o)
-     \/ \E o \in UnifierOpsView : ViaUnifier(o)
+     \/ \E o \in UnifierOpsView : \E p \in PolsFor(o) : \E f \in FaultsFor(o) : ViaUnifier(o, p, f)
 SpecView == MCInit /\ [][NextView]_mcvars
 
 UnifierOpsRepl == ReadOpsSet \cup ContentWrites(MTs) \cup BadPushes \cup UploadOpsSet
 NextRepl ==
   /\ depth < Depth
-  /\ \E o \in UnifierOpsRepl :
-        /\ ViaUnifier(o)
+  /\ \E o \in UnifierOpsRepl : \E p \in PolsFor(o) : \E f \in FaultsFor(o) :
+        /\ ViaUnifier(o, p, f)
         \* reads do not count towards the depth (they change nothing)
         /\ depth' = IF o.op \in ReadOps THEN depth ELSE depth + 1
 SpecRepl == MCInit /\ [][NextRepl]_mcvars
